@@ -2410,6 +2410,9 @@ func (data *Data) mapShardsToMst(database string, rpi *RetentionPolicyInfo, sgi 
 func mapShards(mstName string, shards []ShardInfo, numOfShards int32) []int {
 	sour := rand.NewSource(int64(HashID([]byte(mstName))))
 	randomSlice := rand.New(sour).Perm(len(shards))
+	if int(numOfShards) > len(randomSlice) {
+		numOfShards = int32(len(randomSlice))
+	}
 	shardsIdx := randomSlice[:numOfShards]
 	sort.Ints(shardsIdx)
 	return shardsIdx
